@@ -57,7 +57,11 @@ def build(race=False):
         cmd.append("-race")
     cmd.append("./props")
     t0 = time.time()
-    p = subprocess.run(cmd, cwd=HARNESS, env=goenv(), stdout=subprocess.PIPE, stderr=subprocess.STDOUT, text=True)
+    env = goenv()
+    # the race detector needs cgo; the plain binary is built without it so that it runs under a
+    # small address-space limit (ulimit -v) without pthread_create failures
+    env["CGO_ENABLED"] = "1" if race else "0"
+    p = subprocess.run(cmd, cwd=HARNESS, env=env, stdout=subprocess.PIPE, stderr=subprocess.STDOUT, text=True)
     if p.returncode != 0:
         log("BUILD FAILED (%s)" % " ".join(cmd))
         log(p.stdout[-6000:])
@@ -214,8 +218,8 @@ def run_fuzz(pid, cfg, tier, outdir, notes):
         before = set(os.listdir(crash_dir)) if os.path.isdir(crash_dir) else set()
         env = goenv()
         env.update({"VERIF_TIER": tier, "VERIF_OUT": "", "VERIF_PROP": pid})
-        cmd = ["go", "test", "-vet=off", "-run", "^$", "-fuzz", "^" + tgt["name"] + "$", "-fuzztime", "%ds" % secs,
-               "-test.fuzzcachedir", cache, "-parallel", str(NCPU), "./props"]
+        cmd = ["go", "test", "./props", "-vet=off", "-run", "^$", "-fuzz", "^" + tgt["name"] + "$", "-fuzztime", "%ds" % secs,
+               "-parallel", str(NCPU), "-test.fuzzcachedir", cache]
         t0 = time.time()
         try:
             p = subprocess.run(cmd, cwd=HARNESS, env=env, stdout=subprocess.PIPE, stderr=subprocess.STDOUT, text=True, timeout=secs + 600)
